@@ -752,7 +752,12 @@ pub fn c12_strategy(transports: BoxedStrategy<Transport>) -> BoxedStrategy<ConvC
                         vec![Step::Send { from: 0, to: cut }, Step::AwaitFinals(n - 1), Step::Send { from: cut, to: rd.ranges[n - 1].end }, Step::AwaitFinals(n), Step::HalfClose]
                     } else {
                         // client half-closes right away: everything received is still answered
-                        vec![Step::Send { from: 0, to: rd.ranges[n - 1].end }, Step::HalfClose]
+                        // (now and then it does so in the middle of a streamed body the application does
+                        // not ask for: the request is answered all the same, then the server closes)
+                        let last = &case0.conv.reqs[n - 1];
+                        let streamed_unread = matches!(last.framing, Framing::Length { n } if n > 1024) && matches!(case0.prog(n - 1).read, ReadPlan::None) && last.mal.is_none();
+                        let to = if streamed_unread && mode == 1 { rd.ranges[n - 1].head_end + (rd.ranges[n - 1].end - rd.ranges[n - 1].head_end) / 2 } else { rd.ranges[n - 1].end };
+                        vec![Step::Send { from: 0, to }, Step::HalfClose]
                     }
                 }
             };
@@ -941,11 +946,20 @@ pub fn c18_strategy(transports: BoxedStrategy<Transport>) -> BoxedStrategy<ConvC
             };
             let mut conv = Conversation::default();
             let mut conn = keepalive_for(version, followers == 0);
+            // a protocol switch the application accepts through `upgrade()` without ever asking for a
+            // body: the 101 is the only message, whatever the request expects
+            let (framing, p) = if followers == 0 && version == "HTTP/1.1" && matches!(framing, Framing::Length { .. }) && (mask >> 19) % 8 == 0 {
+                conn = Some(["upgrade", "Upgrade, keep-alive"][(mask as usize >> 26) % 2].to_string());
+                (Framing::Upgrade { rest: len.min(40) }, Prog { read: ReadPlan::None, finish: Finish::Upgrade { proto: "websocket".into() } })
+            } else {
+                (framing, p)
+            };
+            let switched = matches!(framing, Framing::Upgrade { .. });
             // an upgrade offer the application ignores (e.g. h2c): the request is handled as plain
             // HTTP, and its expectation is an expectation like any other
             // (only where the body is asked for: an upgrade request answered without reading ends the
             // connection at once, and a client still sending its body then sees a broken pipe)
-            if followers == 0 && matches!(framing, Framing::Length { .. }) && version == "HTTP/1.1" && (mask >> 23) % 6 == 0 && matches!(p.read, ReadPlan::ToEof { .. }) {
+            if !switched && followers == 0 && matches!(framing, Framing::Length { .. }) && version == "HTTP/1.1" && (mask >> 23) % 6 == 0 && matches!(p.read, ReadPlan::ToEof { .. }) {
                 conn = Some(["Upgrade, HTTP2-Settings", "upgrade", "keep-alive, Upgrade"][(mask as usize >> 26) % 3].to_string());
             }
             conv.reqs.push(build_req(0, "POST".into(), "/upload".into(), version, headers, framing, None, mask as usize, mask, conn, expect));
